@@ -353,7 +353,7 @@ static inline std::string inv_value(Rng &r, const Inv &iv)
 	}
 	if (f.compare(0, 2, "%s") == 0 && c.y < 1970)
 		c.y += 100;
-	if (f.compare(0, 2, "%s") == 0 && r.chance(1, 10))
+	if (f.compare(0, 2, "%s") == 0 && r.chance(1, 4))
 		c.y = 1970, c.m = 1, c.d = 1, c.H = c.M = 0, c.S = (int)r.below(2);	/* the epoch itself and the second after */
 	return fmt_value(f, c);
 }
